@@ -383,6 +383,11 @@ def R4_conservation(ctx):
             P, recv = pushes[0]
             # conservation only: the element goes into one bin of the bins vector; which bin is the balancing heuristic's business
             okl = recv[0] == "call" and recv[1].endswith("IndexMut<I>>::index_mut") and recv[2][0][0] == "call" and recv[2][0][1] == "std::vec::from_elem"
+            if not okl:
+                # bins as one vector of small structs {total, queries}: the query goes into the `queries` of one element of a
+                # vector built with one element per 0..parallelism, and the result hands out that field of every element
+                struct_bins = _struct_bins_form(F, lbb, ltm, recv)
+                okl = struct_bins is True
             # on every turn exactly once: no way round the loop without the push, no second push before the next query
             okl = okl and innermost_loop(lbb, P.bb) == outer
             okl = okl and h not in lbb.reach_from_succs(h, removed_blocks=[P.bb])
@@ -404,6 +409,8 @@ def R4_conservation(ctx):
     rt = nosite(deep_strip(ltm.return_term()))
     sizes = [c for c in lbb.calls() if c.callee == "std::vec::from_elem"]
     oks = len(sizes) == 2 and all(nosite(deep_strip(ltm.operand(c.args[1], c.bb))) == ("arg", 2) for c in sizes)
+    if not oks and not sizes and locals().get("struct_bins") is True:
+        oks = True   # one vector of bins, (0..parallelism).map(..).collect(): checked by _struct_bins_form
     ctx.check(oks, "load-balancing:bins-sized-by-parallelism", "bin_totals and assignments are not both sized by `parallelism`", lbb.where(), detail="vec![..; parallelism] x2")
     # weight failure never aborts the batch
     we = [c for c in lbb.calls_deep() if (c.callee or "").endswith("get_query_weight_estimate")]
@@ -650,6 +657,35 @@ def R4_input_plugins(ctx):
             # try_for_each stops at the first Err by definition
             early = [c for c in ob.calls() if c.callee and (itm(c.callee, "try_for_each") or itm(c.callee, "try_fold"))]
         ctx.check(not early, "apply_input_plugins:sub-query-error-aborts-siblings", "json_array_op leaves the loop over the expanded sub-queries at the first failing one (`op(q).map_err(package_error)?`): the siblings that grid search produced from the same user query get no response at all (3 expanded queries, 1 failing => 1 response)", ob.where(), detail="all sub-queries answered")
+
+
+def _struct_bins_form(F, lbb, ltm, recv):
+    t = clean(recv)
+    fld = None
+    if t[0] == "field" and not str(t[2]).isdigit():
+        fld, t = t[2], t[1]
+    while t[0] == "at" or (t[0] == "call" and re.search(r"::index_mut$|::index$|::get_mut$", t[1]) and t[2]):
+        t = t[1] if t[0] == "at" else t[2][0]
+    if fld is None:
+        return False
+    base, steps = chain_steps(F, t)
+    names = [n for n, _ in steps]
+    sized = base[0] == "agg" and base[1].endswith("ops::Range") and dict(base[3]).get("start") == ("const", "usize", 0) and clean(dict(base[3]).get("end")) == ("arg", 2) and [n for n in names if n not in ("into_iter", "collect")] == ["map"]
+    if not sized:
+        return False
+    # Ok(bins.into_iter().map(|b| b.<fld>).collect()): every bin's queries, no bin dropped
+    rt = clean(ltm.return_term())
+    oks_ = [a for a in (rt[1] if rt[0] == "phi" else (rt,)) if result_variant(a) == "Ok"]
+    # (an early `Ok(vec![])` for nothing to balance is not a bin vector)
+    oks_ = [a for a in oks_ if not (agg_payload(a)[0] == "call" and re.search(r"Vec::<T>::new$|^vec!$", agg_payload(a)[1]) and not agg_payload(a)[2])]
+    if len(oks_) != 1:
+        return False
+    rb, rsteps = chain_steps(F, agg_payload(oks_[0]))
+    extra = rsteps[len(steps):] if rsteps[:len(steps)] == steps else None
+    if extra is None or clean(rb) != clean(base):
+        return False
+    emaps = [v for n, v in extra if n == "map"]
+    return [n for n, _ in extra if n not in ("into_iter", "iter", "collect", "map")] == [] and emaps == [("field", ("elem",), fld)]
 
 
 def R5_error_discipline(ctx):
